@@ -154,6 +154,15 @@ def run(prop, tier, replay=None):
     # 4. TLC decides conformance of every recorded step
     rejs, r = fp.validate(work, lines, prop)
     print("trace validation: %d states, %.1fs, %d rejected line(s)" % (r["distinct"], r["wall_s"], len(rejs)))
+    # 5. the same histories through the real Processor.Run select loop (inputs sent on its channels, own
+    #    signatures looped back by the code itself); every third history in the quick tier
+    loop_scs = scenarios if (replay or tier == "thorough") else scenarios[::3]
+    llines, lwall = fp.replay(work, loop_scs, prop + "L", runloop=True)
+    lslow = {ln["t"] for ln in llines if ln["ev"] == "Slow"}
+    llines = [ln for ln in llines if ln["t"] not in lslow]
+    lrejs, lr = fp.validate(work, llines, prop + "L")
+    print("run-loop mode: %d histories (%d lines) through Processor.Run in %.1fs; trace validation %d states, %d rejected line(s)"
+          % (len(loop_scs), len(llines), lwall, lr["distinct"], len(lrejs)))
 
     byn = {(ln["t"], ln["n"]): ln for ln in lines}
     verdict = vlib.Verdict(prop)
@@ -171,6 +180,17 @@ def run(prop, tier, replay=None):
     gossip_cov = {}
     if prop == "C03" and not replay:
         gossip_cov = run_gossip(work, tier, seed, verdict)
+    lbyn = {(ln["t"], ln["n"]): ln for ln in llines}
+    for rj in lrejs:
+        ln = lbyn.get((rj["t"], rj["n"]), {"ev": rj.get("ev"), "a": {}, "s": {}})
+        props, comps = fp.attribute(rj, ln)
+        sig = "runloop/" + fp.signature(rj, ln, comps)
+        if prop in props:
+            sc = loop_scs[rj["t"] - 1] if 0 < rj["t"] <= len(loop_scs) else None
+            verdict.add(sig, {"line": ln, "why": rj.get("why"), "spec_state": rj.get("spec"), "components": sorted(comps),
+                              "tlc": rj.get("tlc"), "scenario": sc, "mode": "run-loop"})
+        else:
+            others["%s:%s" % ("+".join(sorted(props)), sig)] += 1
     rc = verdict.finish()
     for k, v in others.items():
         print("note: %d rejected line(s) speak to another property (%s); see that property's check" % (v, k))
@@ -216,7 +236,7 @@ def run(prop, tier, replay=None):
     cov = {
         "states": mc_states if not replay else max(r["distinct"], 1),
         "transitions": mc_trans if not replay else max(r["generated"], 1),
-        "traces_validated_against_impl": len(scenarios) - len(slow),
+        "traces_validated_against_impl": len(scenarios) - len(slow) + len(loop_scs) - len(lslow),
         "samples": sample,
         "evaluations": len(lines),
         "distinct_nontrivial": len(classes),
@@ -224,6 +244,7 @@ def run(prop, tier, replay=None):
                 "(handler, guardian-set size class, aggregation-entry class [observed?, submitted?, signatures vs quorum, retries], "
                 "input validity class, outputs) tuples; Advance steps are not counted",
         "mc_configs": mcs, "trace_spec_states": r["distinct"],
+        "run_loop_mode": {"histories": len(loop_scs), "lines": len(llines), "rejected": len(lrejs), "discarded_slow": len(lslow)},
         "handler_calls": dict(acts), "effects_observed": dict(effects), "guardian_set_sizes": {str(k): v for k, v in sorted(setsizes.items())},
         "scenario_sources": dict(Counter(sc.get("src") for sc in scenarios)),
         "rejected_lines_this_property": len(verdict.items), "rejected_lines_other_properties": dict(others),
